@@ -1311,9 +1311,8 @@ func (la *lockAnalysis) edgesIn(reach map[*ssa.Function]bool) []orderEdge {
 		fl := la.fns[f]
 		for _, a := range fl.acqs {
 			for hp, hm := range a.held {
-				if hp == a.lock {
-					continue
-				}
+				// (the lock's own path in the may-held set at its acquisition: held from an earlier iteration of a
+				// loop — another instance of the class, or the same one again — both are nested same-class locking)
 				out = append(out, orderEdge{classOfPath(fl, hp), a.class, hm, a.mode, f, a.pos, fnDisplay(f)})
 			}
 		}
